@@ -361,10 +361,13 @@ Definition export_ok (m : vmodule) (e : N * N * N) : bool :=
   let '(_, kind, idx) := e in
   let funcs := vm_imports m ++ map mf_type (vm_funcs m) in
   if (kind =? 0)%N then
-    match nth_error funcs (N.to_nat idx) with
-    | Some ti => match nth_error (vm_types m) ti with Some _ => true | None => false end
-    | None => false
-    end
+    (* [funcs.get(index as usize)]: the bound is tested first so that a huge index is never unfolded *)
+    if (idx <? N.of_nat (length funcs))%N then
+      match nth_error funcs (N.to_nat idx) with
+      | Some ti => match nth_error (vm_types m) ti with Some _ => true | None => false end
+      | None => false
+      end
+    else false
   else if (kind =? 1)%N then match vm_table m with Some _ => true | None => false end
   else if (kind =? 2)%N then match vm_mem m with Some _ => true | None => false end
   else if (kind =? 3)%N then (idx <? N.of_nat (length (vm_globals m)))%N
